@@ -128,7 +128,7 @@ impl InnerProductArgPC {
                 cur_challenge@ == sp_chal(old(sponge).st@, 2 * it.index@ as nat),
                 combined_v@ == ipa_acc_v(commitments@, values0, point@, d as nat, old(sponge).st@, it.index@ as nat),
                 combined_commitment_proj@ == ipa_acc_c(commitments@, old(sponge).st@, it.index@ as nat),
-//@at /for \(labeled_commitment, value\) in labeled_commitments\.zip\(values\) \{/
+//@loopstart 1
             proof { reveal_with_fuel(sp_iter, 4); }
 //@loop 2 kw=for name=it2
             invariant it2.index@ <= min(proof.l_vec@.len(), proof.r_vec@.len()),
@@ -141,7 +141,7 @@ impl InnerProductArgPC {
 //@after /let mut round_commitment_proj =/
         let ghost first_rc = round_challenge@; let ghost start_rcomm = round_commitment_proj@;
         proof { reveal_with_fuel(sp_iter, 2); }
-//@at /for \(l, r\) in l_iter\.zip\(r_iter\) \{/
+//@loopstart 2
             let ghost rcs0 = round_challenges@;
 //@loopend 2
             proof {
